@@ -168,7 +168,8 @@ def report(case, why):
 
 
 def oracle_leafgen(rng):
-    return ul.rand_umap(rng, ["a", "b", "c", "kg", "m", "s"], maxlen=3)
+    # "any integer exponents": an explicitly written zero exponent now and then
+    return ul.rand_umap(rng, ["a", "b", "c", "kg", "m", "s"], maxlen=3, allow_zero=rng.random() < 0.06)
 
 
 def search(ctx, suspects, budget):
